@@ -179,6 +179,68 @@ impl TorrentMaps {
     }
 }
 
+#[cfg(feature = "verif")]
+impl TorrentMaps {
+    /// Projection of the stored state (peers in storage order; torrents in
+    /// shard order, unordered within a shard)
+    pub fn verif_dump(&self) -> Vec<aquatic_common::verif::TorrentDump> {
+        let mut out = self.ipv4.verif_dump(true, |ip| IpAddr::V4(ip.into()));
+
+        out.extend(self.ipv6.verif_dump(false, |ip| IpAddr::V6(ip.into())));
+
+        out
+    }
+}
+
+#[cfg(feature = "verif")]
+impl<I: Ip> TorrentMapShards<I> {
+    fn verif_dump(
+        &self,
+        ipv4: bool,
+        to_ip: impl Fn(I) -> IpAddr,
+    ) -> Vec<aquatic_common::verif::TorrentDump> {
+        use aquatic_common::verif::{PeerDump, TorrentDump};
+
+        let peer_dump = |key: &ResponsePeer<I>, peer: &Peer| PeerDump {
+            addr: Some((to_ip(key.ip_address), key.port.0.get())),
+            peer_id: Some(peer.peer_id.0),
+            seeder: peer.is_seeder,
+            valid_until: peer.valid_until.verif_raw(),
+            owner: None,
+            expecting_answers: Vec::new(),
+        };
+
+        let mut out = Vec::new();
+
+        for shard in self.0.iter() {
+            for (info_hash, peer_map_arc) in shard.read().iter() {
+                let strong_count = Some(Arc::strong_count(peer_map_arc));
+
+                out.push(match &*peer_map_arc.read() {
+                    PeerMap::Small(m) => TorrentDump {
+                        ipv4,
+                        info_hash: info_hash.0,
+                        large: false,
+                        num_seeders: None,
+                        strong_count,
+                        peers: m.0.iter().map(|(k, p)| peer_dump(k, p)).collect(),
+                    },
+                    PeerMap::Large(m) => TorrentDump {
+                        ipv4,
+                        info_hash: info_hash.0,
+                        large: true,
+                        num_seeders: Some(m.num_seeders),
+                        strong_count,
+                        peers: m.peers.iter().map(|(k, p)| peer_dump(k, p)).collect(),
+                    },
+                });
+            }
+        }
+
+        out
+    }
+}
+
 #[derive(Clone)]
 pub struct TorrentMapShards<I: Ip>(Arc<[RwLock<TorrentMapShard<I>>]>);
 
